@@ -11,7 +11,7 @@ RULE = ("every Pauli string (N<=3 quick, N<=4 thorough) x 4 phases x every accep
         "compared with the oracle's own (string -> (g,p)) reading; random lists N<=12, L<=20 with random index "
         "expressions; a case is non-trivial when the string is not the identity or the phase is not +1")
 ASSUMPTIONS = ["oracle reads letters with its own table; phases mod 4", "index semantics = numpy selection on (gs, ps)"]
-REQUIRED_SUBS = ["parse.str.*", "parse.codes.*", "parse.str.infix", "parse.dict", "repr.roundtrip", "token.roundtrip", "list.roundtrip",
+REQUIRED_SUBS = ["parse.str.*", "parse.codes.*", "parse.str.infix", "parse.mixed", "parse.dict", "repr.roundtrip", "token.roundtrip", "list.roundtrip",
                  "attr.*", "index.int", "index.slice", "index.mask", "index.array", "neg", "scalar.*"]
 
 PREFIX = {'': 0, '+': 0, '-': 2, 'i': 1, '-i': 3, '+i': 1}
@@ -84,6 +84,15 @@ def run_exh(shard, rec, B):
                 variants.append(("trail", codes + [CODE[p]]))
                 for k in range(1, N):
                     variants.append(("infix", codes[:k] + [CODE[p]] + codes[k:]))
+                # one sequence mixing letters with codes (each entry is read on its own): marker as characters or as a code
+                for par in (0, 1):
+                    body = [(s[i] if (i + par) % 2 == 0 else codes[i]) for i in range(N)]
+                    for mk, lead in (("chars", list([x for x, y in PREFIX.items() if y == p][-1])), ("code", [CODE[p]])):
+                        for kind, obj in (("list", lead + body), ("tuple", tuple(body + lead) if mk == "code" else tuple(lead + body))):
+                            ok, P = rec.attempt("parse.mixed", [mk, kind, repr(obj)], lambda: lib.pauli(obj))
+                            if ok:
+                                good, obs = _same(B, P, g, p)
+                                rec.check("parse.mixed", good, [repr(obj)], nt, expected=O.show(g, p), observed=obs)
                 for nm, cs in variants:
                     for kind, obj in (("list", list(cs)), ("tuple", tuple(cs)), ("ndarray", np.array(cs))):
                         ok, P = rec.attempt("parse.codes", [nm, kind, cs], lambda: lib.pauli(obj))
